@@ -51,6 +51,12 @@ def Res.show {α} (f : α → String) : Res α → String
   | .err e => .err e
   | .panic e => .panic e
 
+/-- `n ≤ l.length` without walking the whole list (cost O(n), not O(length)) -/
+def hasAtLeast {α} : List α → Nat → Bool
+  | _, 0 => true
+  | [], _ + 1 => false
+  | _ :: r, n + 1 => hasAtLeast r n
+
 def boolStr (b : Bool) : String := if b then "1" else "0"
 
 end Enc
